@@ -9,12 +9,18 @@ k-th line of the loop operation), its mirror image (the whole loop operation lan
 line of `set_value`), double preemptions and random fine-grained schedules.
 
 While the two threads run, every access to a variable that both threads touch is logged in global
-order (found by looking at the bytecode about to execute: LOAD_ATTR / STORE_ATTR of `_value`,
-`_to_hap_cache_with_value`, `_to_hap_cache` on the characteristic under test; the `in self.topics`
+order (found by looking at the bytecode about to execute: LOAD_ATTR / STORE_ATTR of the value slot
+and the two cache slots of the characteristic under test — their names are discovered from behaviour
+through the public API, see discover_names; the `in self.topics`
 test of `AccessoryDriver.publish`; creation / deletion of the topic key; hand-offs to and pops from
 the loop's ready queue).  That log *is* a schedule of the Lean model (one model step per access):
 the model is run with it and must produce the same accesses in the same order, the same result
 for every loop operation, the same final reads and the same events per connection.
+
+If the access log cannot be established for the code at hand (the same mandatory accesses are
+missing from two consecutive runs: the code is structured differently from what the instrumentation
+recognises), that is a broken tie, not a harness failure: the cases are still run and judged by the
+oracle, the search runs, and the report is `no-failing-input-found` with the missing accesses named.
 
 The oracle (harness/ref/race.py) never looks at the model: after everything completed (hand-offs
 drained, every armed coalescing timer expired — fired the way the loop fires a due TimerHandle,
@@ -193,15 +199,100 @@ class Env:
 
     def close(self):
         for proto, _ in self.conns.values():
-            if proto._event_timer:  # diagnostics only: do not leave timers behind
-                proto._event_timer.cancel()
+            h = find_timer(proto)
+            if h is not None:  # do not leave timers behind
+                h.cancel()
         self.loop.close()
 
 
 # ------------------------------------------------------------------------------------------------
 # deterministic two-thread executor with access logging
 
-SHARED_ATTRS = {"_value": "value", "_to_hap_cache_with_value": "cacheV", "_to_hap_cache": "cache"}
+# attribute name on the characteristic -> shared variable of the model; discovered from behaviour (see
+# discover_names), so that a renaming of the private slots does not matter
+SHARED_ATTRS: Dict[str, str] = {}
+_NAMES_DONE = False
+_NAMES_PROBLEM: Optional[str] = None
+
+
+def _attr_names(o) -> List[str]:
+    names: List[str] = []
+    for k in type(o).__mro__:
+        sl = getattr(k, "__slots__", ())
+        names += [sl] if isinstance(sl, str) else list(sl)
+    names += list(getattr(o, "__dict__", {}))
+    return names
+
+
+def discover_names():
+    """Find, through the public API only, which attributes of a Characteristic hold the value and
+    the two memoised representations: the one that `char.value = x` makes identical to x; the ones
+    that to_HAP(include_value=False) / to_HAP(include_value=True) turn from None into a dict and
+    that a later `char.value = ...` turns back into None."""
+    global _NAMES_DONE, _NAMES_PROBLEM
+    if _NAMES_DONE:
+        return
+    _NAMES_DONE = True
+    saved, cur = sys.gettrace(), None
+    sys.settrace(None)
+    try:
+        env = Env("int", 20, [])
+        try:
+            ch = env.char
+            names = _attr_names(ch)
+            missing = object()
+
+            def snap():
+                return {n: getattr(ch, n, missing) for n in names}
+
+            marker = 21
+            probe = object()
+            keep = ch.value
+            ch.value = probe
+            val = [n for n in names if getattr(ch, n, missing) is probe]
+            ch.value = keep
+            s0 = snap()
+            ch.to_HAP(include_value=False)
+            s1 = snap()
+            nv = [n for n in names if s0[n] is None and isinstance(s1[n], dict)]
+            ch.to_HAP(include_value=True)
+            s2 = snap()
+            wv = [n for n in names if s1[n] is None and isinstance(s2[n], dict)]
+            ch.value = marker
+            s3 = snap()
+            cleared = [n for n in nv + wv if s3[n] is None]
+            if len(val) == 1 and len(nv) == 1 and len(wv) == 1 and sorted(cleared) == sorted(nv + wv):
+                SHARED_ATTRS.clear()
+                SHARED_ATTRS.update({val[0]: "value", wv[0]: "cacheV", nv[0]: "cache"})
+            else:
+                _NAMES_PROBLEM = (
+                    f"could not identify the value / cache attributes of Characteristic from its behaviour "
+                    f"(value: {val}, filled by to_HAP(False): {nv}, by to_HAP(True): {wv}, cleared by a value "
+                    f"change: {cleared})"
+                )
+        finally:
+            env.close()
+    except Exception as ex:  # noqa: BLE001
+        _NAMES_PROBLEM = f"probing the Characteristic attributes raised {ex!r}"
+    finally:
+        sys.settrace(saved)
+    _TABLES.clear()
+    del cur
+
+
+def value_attr() -> Optional[str]:
+    for k, v in SHARED_ATTRS.items():
+        if v == "value":
+            return k
+    return None
+
+
+def find_timer(proto):
+    """The connection's armed coalescing timer, whatever the attribute is called."""
+    for v in vars(proto).values():
+        if isinstance(v, asyncio.TimerHandle):
+            return v
+    return None
 
 
 class SchedulerStuck(Exception):
@@ -376,7 +467,8 @@ class Exec:
         """Register effects of the instruction that just completed (no yield can lie in between)."""
         if self.capture:
             self.capture = False
-            v = self.env.char._value  # diagnostic read of the object just stored (identity class)
+            # diagnostic read of the object just stored (identity class)
+            v = getattr(self.env.char, value_attr() or "_value", None)
             ids = self.write_ids if self.capture_tid == "W" else self.l_write_ids
             for i, o in enumerate(self.objects):
                 if o is v:
@@ -503,7 +595,7 @@ class Exec:
         elif name == "fire":
             # the coalescing timer expires: what the loop does with a due TimerHandle
             proto = env.conns[op[1]][0]
-            h = proto._event_timer
+            h = find_timer(proto)
             if h is not None and getattr(h, "_scheduled", False) and not h.cancelled():
                 try:
                     env.loop._scheduled.remove(h)
@@ -606,28 +698,36 @@ def epilogue_for(conns: List[int]) -> List[List[Any]]:
 
 
 class TracingIncomplete(Exception):
-    pass
+    """The access log of one and the same case differs between consecutive runs (a harness problem:
+    CPython's opcode-event quirk did not settle).  Infrastructure failure, never a verdict."""
 
 
-def _log_complete(ex: "Exec", case: Dict[str, Any], epi, valid) -> bool:
-    """CPython 3.12 delivers 'opcode' trace events for a code object only after it has been
-    re-instrumented, which on the first traced execution in a process can lag behind; such a run
-    lacks accesses that must be there whatever the schedule.  (Checked so that an incomplete log
-    is re-run instead of being compared with the model.)"""
+def _log_missing(ex: "Exec", case: Dict[str, Any], epi, valid) -> List[str]:
+    """Accesses that must be in the log whatever the schedule, and are not.
+
+    Two causes: (a) CPython 3.12 delivers 'opcode' trace events for a code object only after it has
+    been re-instrumented, which on the first traced execution in a process can lag behind — a re-run
+    cures it; (b) the code is structured differently from what the instrumentation recognises — then
+    the access-level tie cannot be established and the case counts as a broken tie (the oracle does
+    not need the log)."""
     ops = case["prologue"] + case["loop"] + epi
     n = lambda name: sum(1 for o in ops if o[0] == name)  # noqa: E731
     lg = ex.log
-    return (
-        lg.count("W:W:value") >= sum(1 for v in valid if v)
-        and lg.count("W:W:cacheV") >= sum(1 for v in valid if v)
-        and lg.count("L:R:cacheV") >= n("toHAP")
-        and lg.count("L:R:cache") >= n("toHAPnv")
-        and lg.count("L:R:value") >= n("getValue")
-        and lg.count("L:W:value") >= n("write")
-    )
+    nv = sum(1 for v in valid if v)
+    want = [
+        ("W:W:value", nv, "the worker's store of the value (one per accepted update)"),
+        ("W:W:cacheV", nv, "the worker's clear of the with-value cache (one per accepted update)"),
+        ("L:R:cacheV", n("toHAP"), "the loop's test of the with-value cache (one per to_HAP)"),
+        ("L:R:cache", n("toHAPnv"), "the loop's test of the value-free cache (one per to_HAP(include_value=False))"),
+        ("L:R:value", n("getValue"), "the loop's read of the value (one per get_characteristics)"),
+        ("L:W:value", n("write"), "the store of the value by a controller write"),
+    ]
+    return [f"{lab}: {what} — {lg.count(lab)} logged, at least {k} expected" for lab, k, what in want
+            if lg.count(lab) < k]
 
 
 _WARM = False
+_TIE_PROBLEM: Optional[str] = None  # set once per process when the access log cannot be established at all
 _WARM_CASES = [
     {"char": k, "init": KINDS[k]["good"][0], "conns": [1, 2],
      "prologue": [["sub", 1], ["toHAPnv"]],
@@ -640,30 +740,43 @@ _WARM_CASES = [
 
 
 def warm_up():
-    """Make sure every code object involved is instrumented for opcode events in this process."""
-    global _WARM
+    """Discover the attribute names, make sure every code object involved is instrumented for opcode
+    events in this process, and find out whether the access log can be established at all."""
+    global _WARM, _TIE_PROBLEM
     if _WARM:
         return
     _WARM = True
+    discover_names()
+    if _NAMES_PROBLEM:
+        _TIE_PROBLEM = _NAMES_PROBLEM
+        return
     for c in _WARM_CASES:
         for _ in range(2):
-            try:
-                _run_case_once(c)
-            except TracingIncomplete:
-                pass
+            _run_case_once(c)
+    probes = [_run_case_once(c) for c in (_WARM_CASES[0], _WARM_CASES[0], _WARM_CASES[1])]
+    if probes[0]["missing"] and probes[0]["impl"]["trace"] == probes[1]["impl"]["trace"] and probes[2]["missing"]:
+        _TIE_PROBLEM = "; ".join(probes[0]["missing"])
 
 
 def run_case(case: Dict[str, Any]) -> Dict[str, Any]:
     """Run one recorded case on the real code.  Returns observations, oracle verdicts and the
-    model line; raises only for infrastructure problems."""
+    model line (or `tie_problem` when the access log cannot be established for this case); raises
+    only for infrastructure problems."""
     warm_up()
-    for attempt in range(3):
-        try:
-            return _run_case_once(case)
-        except TracingIncomplete:
-            if attempt == 2:
-                raise
-    raise AssertionError("unreachable")
+    prev = None
+    for attempt in range(4):
+        r = _run_case_once(case)
+        if _TIE_PROBLEM:
+            r["tie_problem"] = _TIE_PROBLEM
+            return r
+        if not r["missing"]:
+            return r
+        if prev is not None and prev == r["impl"]["trace"]:
+            # the same incomplete log twice in a row: not the transient quirk, the code is different
+            r["tie_problem"] = "; ".join(r["missing"])
+            return r
+        prev = r["impl"]["trace"]
+    raise TracingIncomplete(f"the access log of one case keeps changing between runs: {r['missing']}")
 
 
 def _run_case_once(case: Dict[str, Any]) -> Dict[str, Any]:
@@ -680,8 +793,9 @@ def _run_case_once(case: Dict[str, Any]) -> Dict[str, Any]:
         events = {c: ref.parse_events(tr.writes, env.aid, env.iid) for c, (_, tr) in env.conns.items()}
     finally:
         env.close()
-    if ex.worker_outcomes == [("ok" if ok else "ValueError") for ok in valid] and not _log_complete(ex, case, epi, valid):
-        raise TracingIncomplete(f"access log lacks mandatory entries: {ex.log}")
+    missing: List[str] = []
+    if ex.worker_outcomes == [("ok" if ok else "ValueError") for ok in valid]:
+        missing = _log_missing(ex, case, epi, valid)
 
     # ---- oracle (property on the real behaviour) -------------------------------------------------
     scale = KINDS[kind]["scale"]
@@ -751,7 +865,7 @@ def _run_case_once(case: Dict[str, Any]) -> Dict[str, Any]:
     return {
         "line": line, "impl": impl_obs, "verdicts": verdicts, "interleaved": interleaved,
         "yields": dict(ex.yields), "yield_info": ex.yield_info, "sched_part": sched_part, "scale": scale,
-        "n_ep": n_ep, "overlap": ex.overlap,
+        "n_ep": n_ep, "overlap": ex.overlap, "missing": missing,
     }
 
 
@@ -1058,6 +1172,15 @@ def _evaluate(ctx: Ctx, cases: List[Tuple[str, Dict[str, Any]]], correspond: boo
             pass
         if r["verdicts"]:
             st.hit("outcome", "oracle:" + r["verdicts"][0][0])
+        if r.get("tie_problem"):
+            st.hit("outcome", "access-level tie not established (oracle only)")
+            if not any(d.stream == "access-level-tie" for d in ctx.disagreements):
+                ctx.disagree(
+                    "access-level-tie", case,
+                    "access-level tie could not be established: " + r["tie_problem"],
+                    {"accesses_logged": r["impl"]["trace"]},
+                )
+            continue
         if r.get("overlap"):
             # outside the model's Serial assumption and outside C20's oracle (C12's known finding)
             st.hit("outcome", "controller-write-overlaps-worker-update(left to C12, not judged)")
@@ -1178,6 +1301,12 @@ def _replay_tie(payload) -> int:
         case = d["case"]
         res = run_case(case)
         _print_run(case, res)
+        if res.get("tie_problem"):
+            print("access-level tie could not be established:", res["tie_problem"])
+            for sig, desc in res["verdicts"]:
+                print("FAILS:", sig, desc)
+            still += 1
+            continue
         m = run_model("C20", [res["line"]])[0]
         mo = model_obs(m)
         differs = mo != res["impl"] or m.get("stuck") or not m.get("done", True)
